@@ -50,6 +50,9 @@ def cases(tier, seed):
         pats = pats[:2] if tier == "quick" else pats
         for (pn, pat), H in itertools.product(pats, H_all(a, tier)):
             out.append({"arg": a, "mut": pat, "H": H})
+            if H["kind"] == "internal" and pn == "ones":
+                # rounding region: ages so large that child + min_branch_length == child in floating point
+                out.append({"arg": a, "mut": pat, "H": H, "scale": 2.0**30})
     return {
         "cases": out,
         "states": sp.states,
@@ -69,6 +72,8 @@ def build(case):
     elif H["kind"] == "hist2":
         ts = tsspace.historical_leaf(ts, H["leaves"][0], 0.5)
         ts = tsspace.historical_leaf(ts, H["leaves"][1], 0.25)
+    if case.get("scale"):
+        ts = tsspace.scale_times(ts, case["scale"])
     return ts
 
 
@@ -89,7 +94,10 @@ def run(case):
         if ci is not None:
             kw["constr_iterations"] = ci
         evals += 1
-        ok, res = call(dating.method_call, method, ts, 1.0, kw, popsize=1.0)
+        sc = case.get("scale", 1.0)
+        if sc != 1.0 and mbl is not None:
+            continue  # the rounding region is driven by the default 1e-8
+        ok, res = call(dating.method_call, method, ts, 1.0 / sc, kw, popsize=sc)
         sub = {"method": method, "cfg": kw}
         if not ok:
             k = f"no_return:{method}:{classify_exc(res)}"
@@ -108,6 +116,12 @@ def run(case):
                 continue
             seen_parent_sample = True
             need = max(tout[c] + eff for c in ch)
+            oldest = max(tout[c] for c in ch)
+            if need == oldest:
+                # child + mbl rounds to the child: the smallest admissible step that still leaves room for a mutation
+                # strictly inside the branch is two representable values (see fix F6)
+                need = float(np.nextafter(np.nextafter(oldest, np.inf), np.inf))
+                tags["rounding_region_parents"] = tags.get("rounding_region_parents", 0) + 1
             want = max(tin[s], need)
             if tout[s] != want:
                 kind = "sample_pushed_too_far" if tout[s] > want else "sample_not_pushed_enough"
@@ -121,5 +135,5 @@ def run(case):
             else:
                 tags["parent_samples_kept"] = tags.get("parent_samples_kept", 0) + 1
         if seen_parent_sample:
-            keys.append(f"{case['arg']['id']}|{case['mut']}|{case['H']}|{method}|{kw}")
+            keys.append(f"{case['arg']['id']}|{case['mut']}|{case['H']}|{case.get('scale')}|{method}|{kw}")
     return {"evals": evals, "viol": viol, "tags": tags, "keys": keys}
